@@ -15,7 +15,7 @@ EXPLANATION = (
     "span's tokens, on a formatted copy of the span, or on the whole node for its outer sides); boolean tests do not "
     "count. The same for a semicolon that format_block does not re-emit. (R-REPLACE) in the functions that move comments across operators, commas and `=` (a table of (function, side) pairs frozen from the pinned tree), every FormatTriviaType::Replace of a node's trivia is preceded by a complete read of that side of the same node (All, or Single + Multiline). (R-KEEP) on the kept-token route: format_token rebuilds each comment kind as itself with the same bracket level and a text that only went through trim_end / the newline chain; load_token_trivia only skips Whitespace; format_eof and pop_until_no_whitespace only discard Whitespace. This is the 'comments of removed tokens are "
     "transplanted' mechanism, checked per token and per side. (R-REPLACE(census)) no new Replace of a node's trivia appears anywhere without a complete read of that side of the node in the same function (crate-wide count per side, bounded by the reviewed sites); (R-GUARD) the frozen comment tests still exist. (R-COMMENTLAYOUT) a frozen table of seven confirmed sites where a comment test chooses the hanging / multi-line layout: no path on which the test answered true returns the flat formatter's node. KNOWN GAP (F21, DESIGN section 10): beyond those sites, code swallowed by a line comment that is followed by more text on the same line is not decided (no layout knowledge); genuine violations of this class exist on the tree and are not reported. Later rounds: (R-TAKE) the comment vector returned by take_leading_comments / take_trailing_comments is consumed on every path to the return; (R-KEEP(e)) getter / setter field agreement per variant. Not decided: comments of kept tokens (they go through  Rounds 17-19: (R-PRINT) the printed text is returned as printed; (R-COPY) comments read with a getter and attached elsewhere leave their source. Rounds 20-21: (R-PAIR) keyword token and expression of one if-expression arm come from one node."
-    "format_token_reference / format_symbol), duplication, ordering among moved comments. Round 23: (R-TRIVIAPAIR) the GetTrailingTrivia and UpdateTrailingTrivia impls of every node type that has both are path-enumerated; any getter row and updater row whose conditions (on accessor results / the variant of self) can hold together name the same child or one the sub-tree of the other - otherwise the multi-line list layouts read the comments of one child and overwrite those of another.")
+    "format_token_reference / format_symbol), duplication, ordering among moved comments. Round 23: (R-TRIVIAPAIR) the GetTrailingTrivia and UpdateTrailingTrivia impls of every node type that has both are path-enumerated; any getter row and updater row whose conditions (on accessor results / the variant of self) can hold together name the same child or one the sub-tree of the other - otherwise the multi-line list layouts read the comments of one child and overwrite those of another; the same for the GetLeadingTrivia / UpdateLeadingTrivia siblings (R-TRIVIAPAIR(leading)); receivers bound by an or-pattern are not resolved and not judged.")
 ASSUMPTIONS = ["full_moon attaches every comment to exactly one token as leading or trailing trivia",
                "rustc MIR and Instance::try_resolve are trusted"]
 
@@ -23,4 +23,4 @@ ASSUMPTIONS = ["full_moon attaches every comment to exactly one token as leading
 def run(ctx):
     return [r_drop.rule_drop(ctx, "C03"), r_replace.rule_replace(ctx, "C03"), r_replace.rule_replace_census(ctx, "C03"),
             r_keep.rule_keep_format_token(ctx, "C03"), r_keep.rule_keep_load(ctx, "C03"), r_keep.rule_keep_eof(ctx, "C03"),
-            r_guard.rule_guard(ctx, "C03"), r_keep.rule_span_side(ctx, "C03"), r_replace.rule_strip_contract(ctx, "C03"), r_replace.rule_strip_callers(ctx, "C03"), r_keep.rule_getter_setter_fields(ctx, "C03"), r_layout.rule_comment_layout(ctx, "C03"), r_layout.rule_take(ctx, "C03"), r_layout.rule_copy(ctx, "C03"), r_layout.rule_pair_source(ctx, "C03"), p_c07.rule_print(ctx, "C03"), r_pair.rule_trivia_pair(ctx, "C03")]
+            r_guard.rule_guard(ctx, "C03"), r_keep.rule_span_side(ctx, "C03"), r_replace.rule_strip_contract(ctx, "C03"), r_replace.rule_strip_callers(ctx, "C03"), r_keep.rule_getter_setter_fields(ctx, "C03"), r_layout.rule_comment_layout(ctx, "C03"), r_layout.rule_take(ctx, "C03"), r_layout.rule_copy(ctx, "C03"), r_layout.rule_pair_source(ctx, "C03"), p_c07.rule_print(ctx, "C03"), r_pair.rule_trivia_pair(ctx, "C03"), r_pair.rule_trivia_pair_leading(ctx, "C03")]
